@@ -200,6 +200,41 @@ def tcp_receive_loop(script: List[int]) -> bool:
     return fin(b"".join(got) == b"".join(handed))
 
 
+def undecodable_frame(h1: bytes, h2: bytes, b2: bytes, cut: int, ssel: int) -> bool:
+    """
+    pre: len(h1) == 10 and len(h2) == 10
+    pre: h1[5] == 8 or h1[5] >= 10
+    pre: h2[5] <= 9 and h2[5] != 8
+    pre: len(b2) <= 2
+    pre: 0 <= cut <= 14 and 0 <= ssel <= 3
+    post: _
+    """
+    # a frame the receiver cannot decode (undefined SType, or a length field below the 10 header bytes) must not disturb the
+    # framing of what follows: the well-formed frame behind it is delivered, however the two are cut into segments, and nothing
+    # stays behind in the buffer. (The receiver thread logs and swallows an exception of one pass; so does this harness.)
+    short = pick([0, 1, 6, 10], ssel)          # length field 10 (undefined SType), 9, 4, 0
+    if short > 0:
+        bad = bytes([0, 0, 0, 10 - short]) + h1[: 10 - short]
+    else:
+        bad = bytes(refe37.frame(list(h1), []))
+    f2 = bytes(refe37.frame(list(h2), list(b2)))
+    stream = bad + f2
+    p = _rx(b"")
+    k = cut if cut < len(stream) else 0
+    segments = [stream] if k == 0 else [stream[:k], stream[k:]]
+    for seg in segments:
+        p._on_connection_data_received({"source": None, "data": seg})
+        try:
+            p._process_received_data()
+        except Park:
+            return False
+        except Exception:
+            pass
+    got = [b for b in p._thread.blocks if b is not None]
+    return fin(len(got) == 1 and _same(got[0].header, refe37.fields(list(h2))) and got[0].data == b2
+               and len(p._receive_buffer) == 0)
+
+
 _J = 17
 OBLIGATIONS = [
     dict(name="header_encode", fn="header_encode", timeout=120, functions=["HsmsHeader.__init__/encode"],
@@ -232,3 +267,10 @@ OBLIGATIONS.append(
          outside="the real kernel; reads of other sizes (the loop is size independent apart from the full-buffer case)"))
 ASSUMPTIONS = ["ByteQueue's Condition replaced by ParkCondition (rigs/park.py): a parked receiver is modelled by re-entry, justified by the "
                "asserted 'nothing consumed before the park'", "ProtocolDispatcher replaced by a recording sink (delivery order = queue order)"]
+OBLIGATIONS.append(
+    dict(name="undecodable_frame", fn="undecodable_frame", timeout=600, parts=["ssel == %d" % i for i in range(4)],
+         functions=["HsmsProtocol._process_received_data", "HsmsBlock.decode / HsmsHeader.decode on frames they reject"],
+         bounds="a frame with any undefined SType (8, 10..255) and arbitrary other header bytes, or a frame whose length field is 9, 4 or 0, "
+                "followed by a well-formed frame (any header, body <= 2), in one segment or cut at any of the first 14 offsets: the "
+                "well-formed frame is delivered exactly once and the buffer is empty afterwards",
+         outside="more than one undecodable frame in a row; length fields larger than the data that ever arrives (no T8 in the library)"))
